@@ -10,9 +10,7 @@
      correspondence run lists the entries in member-declaration order.
    * DataStorage: `value`; scalars carry their storage variant (`stag`), so a value of
      the wrong variant makes the typed getters fail exactly as in the code.
-   * A nested DynamicData is assumed to carry the type its member descriptor declares
-     (false only when colliding member ids pair a structure value with another member's
-     descriptor; KeyCorr.model_in_scope leaves those cases unpredicted).
+   * A nested DynamicData is assumed to carry the type its member descriptor declares.
    * bytes, positions, lengths: Z.
    Not modelled (the model answers Err 9 "unsupported"): optional members inside the
    key, MUTABLE nested key structures (parameter-list encoding), enum/union/bitmask/
@@ -301,43 +299,55 @@ Definition enc_fstruct (ms : members) (d : fields) : res (list Z) :=
 (* ------------------------------------------- key holder (type and data) *)
 
 (* fill_struct_key_holder_type: key members, depth first through non-key, non-optional
-   nested structures *)
-Fixpoint kh_type (t : ty) : members :=
+   nested structures ... *)
+Fixpoint kh_collect (t : ty) : members :=
   match t with
-  | TStruct _ ms => kh_members ms
+  | TStruct _ ms => kh_collect_ms ms
   | _ => MNil
   end
-with kh_members (ms : members) : members :=
+with kh_collect_ms (ms : members) : members :=
   match ms with
   | MNil => MNil
   | MCons id k o t r =>
-      if k then MCons id k o t (kh_members r)
-      else if is_struct t && negb o then mapp (kh_type t) (kh_members r)
-      else kh_members r
+      if k then MCons id k o t (kh_collect_ms r)
+      else if is_struct t && negb o then mapp (kh_collect t) (kh_collect_ms r)
+      else kh_collect_ms r
   end.
 
-(* fill_struct_key_holder_data: set_value(id, value.get_value(id)?) into ONE map *)
-Fixpoint kh_fill_ty (t : ty) (d : fields) (acc : fields) : res fields :=
-  match t with
-  | TStruct _ ms => kh_fill ms d acc
-  | _ => Ok acc
-  end
-with kh_fill (ms : members) (d : fields) (acc : fields) : res fields :=
+(* ... each pushed with id = index = member_list.len(): numbered afresh 0, 1, 2, ...
+   (member ids are only unique inside the structure they come from) *)
+Fixpoint renumber (n : Z) (ms : members) : members :=
   match ms with
-  | MNil => Ok acc
+  | MNil => MNil
+  | MCons _ k o t r => MCons n k o t (renumber (n + 1) r)
+  end.
+
+Definition kh_type (t : ty) : members := renumber 0 (kh_collect t).
+
+(* fill_struct_key_holder_data: set_value(next_key_id, value.get_value(id)?) into ONE map,
+   next_key_id counting in the same traversal order; state = (map, next_key_id) *)
+Fixpoint kh_fill_ty (t : ty) (d : fields) (st : fields * Z) : res (fields * Z) :=
+  match t with
+  | TStruct _ ms => kh_fill ms d st
+  | _ => Ok st
+  end
+with kh_fill (ms : members) (d : fields) (st : fields * Z) : res (fields * Z) :=
+  match ms with
+  | MNil => Ok st
   | MCons id k o t r =>
-      if k then v <- get_value id d ;; kh_fill r d (set_value id v acc)
+      if k then v <- get_value id d ;; kh_fill r d (set_value (snd st) v (fst st), snd st + 1)
       else if is_struct t && negb o then
         v <- get_value id d ;;
         match v with
-        | VStruct d' => acc' <- kh_fill_ty t d' acc ;; kh_fill r d acc'
+        | VStruct d' => st' <- kh_fill_ty t d' st ;; kh_fill r d st'
         | _ => Err E_INVALID_TYPE
         end
-      else kh_fill r d acc
+      else kh_fill r d st
   end.
 
 (* KeyHolderData::from_dynamic_data: (member list, data) *)
-Definition key_holder_data (t : ty) (d : fields) : res fields := kh_fill_ty t d FNil.
+Definition key_holder_data (t : ty) (d : fields) : res fields :=
+  st <- kh_fill_ty t d (FNil, 0) ;; Ok (fst st).
 
 (* the big-endian serialization of the key holder *)
 Definition key_bytes (t : ty) (d : fields) : res (list Z) :=
@@ -550,8 +560,9 @@ Fixpoint vals_ok (ts : list ty) (vs : list value) : bool :=
   | _, _ => false
   end.
 
-(* the keyed type is inside the fragment and its flattened key holder has no two
-   members with the same id (the complement is finding C11-key-id-collision) *)
+(* the keyed type is inside the fragment; the flattened key holder has no two members
+   with the same id (always true since the members are numbered afresh: fix c1628d5 of
+   finding C11-key-id-collision) *)
 Definition key_type_ok (t : ty) : bool := ms_ok (kh_type t).
 Definition key_ids_unique (t : ty) : bool := nodup (ids_of (kh_type t)).
 
